@@ -56,6 +56,13 @@ CRASH_SHAPES = [
     "SELECT * FROM w x PARALLEL JOIN w y ON x.k >= y.k AND x.s",
     "SELECT * FROM w x PARALLEL RIGHT JOIN w y ON x.k < y.k AND VF_PANIC(x.k <> 3)",
     "SELECT * FROM w x PARALLEL HASH_JOIN w y ON x.k = y.k AND x.s + 1 > 0",
+    # ... over more keys than any plausible bound on workers or tasks, every task panicking / failing; a PARALLEL join whose ON
+    # itself runs a PARALLEL join (each task starts one while the others hold their places)
+    "SELECT * FROM wp x PARALLEL JOIN wp y ON x.k < y.k AND IF(x.flag, TRUE, FALSE)",
+    "SELECT * FROM wp x PARALLEL STRAIGHT_JOIN wp y ON x.k < y.k AND VF_PANIC(TRUE)",
+    "SELECT * FROM wp x PARALLEL LEFT JOIN wp y ON x.k <> y.k AND x.s",
+    "SELECT * FROM wn x PARALLEL JOIN wn y ON x.k < y.k AND EXISTS (SELECT * FROM `<-u` c PARALLEL JOIN `<-u` d ON c.a < d.a)",
+    "SELECT * FROM wn x PARALLEL LEFT JOIN wn y ON x.k < y.k AND x.k IN (SELECT c.a FROM `<-u` c PARALLEL JOIN `<-u` d ON c.a <= d.a)",
     "SELECT * FROM t x PARALLEL HASH_JOIN u y ON x.nokey.deep = y.a",
     "SELECT * FROM t x PARALLEL LEFT JOIN `u.a` y ON x.a = y.a",
     "SELECT ASYNC.VF_PANIC(TRUE) AS v FROM t",
@@ -114,7 +121,8 @@ def explore(chk, rnd, tier):
             c06.gen_distinct, c06.gen_union, c07.gen_cte_case, c07.gen_derived_case, c07.gen_subq_case, c08.gen_case]
     doc = {"t": [{"a": 1, "s": "x", "arr": [1, [2]], "o": {"k": 1}, "items": [{"x": 1}]}, {"a": 2, "s": "y", "arr": [], "items": []}],
            "u": [{"a": 1, "m": 1}, {"a": 3, "m": 2}], "n": 5, "nul": None,
-           "w": [{"k": i, "a": i % 5, "s": "x"} for i in range(40)]}
+           "w": [{"k": i, "a": i % 5, "s": "x"} for i in range(40)],
+           "wp": [{"k": i, "s": "x"} for i in range(136)], "wn": [{"k": i} for i in range(72)]}
     reqs, kinds = [], []
     for i in range(n):
         c = rnd.choice(gens)(rnd)
